@@ -223,7 +223,7 @@ def run(tier, seed, replay):
                        "construction algorithm (PT-TEMPO's compression is not modelled)"]
     res.not_shown = ["'agreement tightens as the tolerance is tightened' (property of truncated SVD)",
                      ]
-    fw.standard_pipeline(res, [], THEOREMS)
+    fw.standard_pipeline(res, ["UniqueSums"], THEOREMS)
     try:
         correspondence(res, tier, rng)
     except fw.Infra as e:
